@@ -9,7 +9,7 @@ binding:  harness/cmd/c08 drives the real PUT /configuration and PUT /apply_flow
           answers 500), runs probe transactions through the active engine before / inside / after the switch
           (hooks hdm.published, hdm.initialized), records SHA-256 + abstract contents of the configuration tree.
 """
-import json, os, random
+import json, os, random, re
 from vlib import Broken, read_ndjson, write_ndjson, validate_history_trace, parallel, tlc_vh_lines, split_histories
 
 SPEC = "c08_config_update"
@@ -65,7 +65,7 @@ def kind_of(c):
 def rand_case(rng, thorough, endpoints):
     """seeded random case over a wider universe than the exhaustive model: three flows, quota and path-parameter files,
     several invalid files at once, junk contents, v3, concurrent probe goroutines."""
-    disk = {MX: "m1"}
+    disk = {MX: "m1"} if rng.random() < 0.8 else {}      # without the user's file the built-in default metrics file is in force
     for f in FLOWS:
         if rng.random() < 0.6:
             disk[f] = rng.choice(["v1", "v1", "v3"])
@@ -193,11 +193,14 @@ def judge(ctx, binary, traces, batches, tag, seen):
                 continue
             REPORTED.add(sig)
             reproduced = None
-            for attempt in range(1 if not c.get("conc") else 20):
+            # the order in which Go iterates over the payload / backup maps differs from run to run: a rejection that depends on
+            # it needs a few attempts; the clause reported is the one of the reproduced run
+            for attempt in range(8 if not c.get("conc") else 20):
                 t2 = run_batches(ctx, binary, [[dict(c)]], "%s-repro%d" % (tag, bi))[0]
                 a2, r2, _ = validate_history_trace(ctx, SPEC, "CfgTraceP", project_p(t2), tag="%s-repro%d" % (tag, bi), max_rounds=1)
-                if r2 and (r2[0].get("invariant") == rej.get("invariant")):
+                if r2:
                     reproduced = t2
+                    w = witness_of(r2[0], c)
                     break
             if reproduced is None:
                 raise Broken("rejection not reproduced (%s): %s" % (tag, json.dumps(w)))
@@ -261,7 +264,8 @@ def run(ctx):
         if kind == "rand":     # the seeded random cases do not depend on TLC's output: record them meanwhile
             return run_batches(ctx, binary, arg, "rand")
         return ctx.tlc(sd, "GenC08", arg, workers=4, timeout=900, heap="3g", label="case generation")
-    flags = ["RestoreWrongDirection", "PublishBeforeInit", "ContinueAfter405", "ApplyNoBackup"]
+    flags = ["RestoreWrongDirection", "PublishBeforeInit", "ContinueAfter405", "ApplyNoBackup", "MetricsToDefaultPath",
+             "NoReloadAfterRestore"]
     nr = 180 if not T else 4000
     rc = [rand_case(ctx.rng, T, endpoints) for _ in range(nr)]
     rbatches = batches_of(rc, 4 if not T else 8)
@@ -333,9 +337,42 @@ def run(ctx):
             ctx.cov["states"] = 0
             ctx.cov["transitions"] = 0
 
-    # (4) binding self-test (thorough): corrupted / truncated recordings and a wrong model must be rejected
+    # (4) thorough: non-vacuity witnesses and per-action coverage of the model, binding self-test
     if T:
+        vacuity(ctx, sd)
         self_test(ctx, traces, batches)
+
+
+ACTIONS = ["PickMC", "Call", "Probe", "FaultEv", "Signal", "Reply", "MethodOK", "Method405", "DecodeBad", "DecodeOK", "Backup",
+           "ParseBad", "ParseOK", "CleanRemove", "CleanDone", "SaveRemove", "SaveStore", "SaveDone", "ValidateOK", "ValidateBad",
+           "BuildInit", "HookInitialized", "Publish", "HealthFail", "HealthOK", "HapCall", "HapDone", "MetricsBad", "MetricsOK",
+           "RestoreBegin", "RStoreRemove", "RStoreStore", "RRemove", "RestoreDone"]
+
+
+def vacuity(ctx, sd):
+    """the antecedents of the clauses are reachable (witness invariants must be VIOLATED) and every action of the model
+    that stands for a step of the repaired code is taken at least once (TLC -coverage)."""
+    wits = ["WitnessOpenTxnServedByNew", "WitnessFailedNotExempt", "WitnessExempt"]
+    def one(w):
+        if w == "cov":
+            return ctx.tlc(sd, "MC_C08", "MC_cov.cfg", workers=4, timeout=900, heap="3g", extra=["-coverage", "1"], count=False,
+                           label="action coverage")
+        return ctx.tlc(sd, "MC_C08", "MC_wit_%s.cfg" % w, workers=2, timeout=600, heap="1g", count=False, label="witness " + w)
+    res = parallel(one, wits + ["cov"], n=4)
+    for w, r in zip(wits, res):
+        if r.violated != w:
+            raise Broken("vacuous: witness %s is not reachable in the model (%r)" % (w, r))
+    cov = res[-1]
+    if not cov.ok:
+        raise Broken("coverage run failed: %r" % cov)
+    counts = {}
+    for m in re.finditer(r"^<(\w+) line \d+, col \d+ to line \d+, col \d+ of module \w+>: (\d+):(\d+)", cov.out, re.M):
+        counts[m.group(1)] = max(counts.get(m.group(1), 0), int(m.group(3)))
+    dead = [a for a in ACTIONS if counts.get(a, 0) == 0]
+    if dead:
+        raise Broken("vacuous: model actions never taken: %s" % dead)
+    ctx.notes.append("witnesses reachable: %s; all %d model actions taken (least: %s)" % (
+        wits, len(ACTIONS), sorted(((counts[a], a) for a in ACTIONS))[:3]))
 
 
 def self_test(ctx, traces, batches):
@@ -377,6 +414,16 @@ def self_test(ctx, traces, batches):
     results["dropped fs.store event (model I)"] = bool(rej)
     _, rej, _ = validate_history_trace(ctx, SPEC, "CfgTraceI", [full_cfg] + rb, cfg="CfgTraceI_wrong.cfg", tag="self-e", max_rounds=1)
     results["model of the defective Restore rejects the repaired code"] = bool(rej)
+    # (f) a transaction whose request was handled by the new and whose response by the old configuration of a successful update
+    mixed = next((h for h in hs if any(e["ev"] == "reply" and e["ok"] for e in h) and
+                  len({json.dumps(e["served"], sort_keys=True) for e in h if e["ev"] == "probe"}) == 2), None)
+    if mixed is None:
+        raise Broken("self-test: no successful case that changed the behaviour in the first batch")
+    probes = [e for e in mixed if e["ev"] == "probe"]
+    oldb, newb = probes[0]["served"], probes[-1]["served"]
+    tail = [dict(probes[-1], txn=9001, ph="req", served=newb), dict(probes[-1], txn=9001, ph="resp", served=oldb)]
+    _, rej, _ = validate_history_trace(ctx, SPEC, "CfgTraceP", [cfg] + mixed + tail, tag="self-f", max_rounds=1)
+    results["request by new, response by old"] = bool(rej) and rej[0].get("invariant") == "OneConfig"
     ctx.notes.append("self-test: " + json.dumps(results))
     if not all(results.values()):
         raise Broken("binding self-test failed: %s" % json.dumps(results))
